@@ -2,7 +2,7 @@
    for extraction.  ExtrOcamlBasic only; N/Z/nat/positive stay Coq datatypes.
    The Unicode-table oracles (strconv.IsPrint / IsGraphic for runes > 0xFF) are
    instantiated per case from an association list supplied by the harness. *)
-From Verif Require Import Utf8.Model Lit.Quote Lit.Unquote.
+From Verif Require Import Utf8.Model Lit.Quote Lit.Unquote Lit.Indent.
 From Coq Require Import List NArith ZArith.
 Require Import ExtrOcamlBasic.
 Import ListNotations.
@@ -24,6 +24,9 @@ Definition c09_mk_form (dq ml auto ah ascii graphic : bool) (indent : nat) : for
 Definition c09_unquote_impl (s : str) : outcome str := unquote_impl s.
 (* regression layer: the int32 accumulator of the code before fix unquote-U *)
 Definition c09_unquote_int32 (s : str) : outcome str := unquote_int32 s.
+(* literal.IndentTabs(s, n): Panic for n < 0 *)
+Definition c09_indent_tabs (s : str) (n : Z) : outcome str := indent_tabs_go s n.
+Definition c09_set_indent (f : form) (n : nat) : form := set_indent f n.
 Definition c09_sanitize (s : str) : str := sanitize s.
 Definition c09_decode (s : str) : N * nat := utf8_decode s.
 Definition c09_decode_last (s : str) : N * nat := utf8_decode_last_rev (rev s).
@@ -61,3 +64,6 @@ Definition c09_xcheck_unquote (cases : list (str * outcome str)) : bool :=
 
 Definition c09_xcheck_quote (cases : list (tbl * form * str * str)) : bool :=
   forallb (fun c => match c with (t, f, s, q) => str_eqb (c09_quote t f s) q end) cases.
+
+Definition c09_xcheck_indent (cases : list (str * Z * outcome str)) : bool :=
+  forallb (fun c => match c with (s, n, r) => outcome_eqb (c09_indent_tabs s n) r end) cases.
